@@ -82,6 +82,11 @@ def item_terms(ps, rnd):
         # texts made of white space are texts like any other (a decoder that "tidies" its input must not touch them)
         [F["dict1"](-1, " "), F["hexint"]()],
         [F["dict1"]("nl", "\n"), F["dict1"]("tab", "\t"), F["spaces"](0, "g")],
+        # upper-case letters and other symbols outside [0-9a-z] next to base-36 combinators (a decoder that lets int(c, 36)
+        # validate accepts 'X' as 33)
+        [F["spaces"](0, "a"), F["dict1"](101, "X"), F["dict1"](102, "Z")],
+        [F["intspaces"](-1, 4, 2), F["dict1"](7, "G"), F["dict1"](8, "_")],
+        [F["multidigit"](3, 3), F["dict1"](5, "Q")],
     ]
     for fams in out:
         for a, b in itertools.combinations(fams, 2):
